@@ -416,6 +416,8 @@ def classify(src, what):
         return "C01:nesting-depth-recursion-limit"
     if "too many statically nested blocks" in what:
         return "C01:more-than-20-statically-nested-blocks"
+    if "too many nested parentheses" in what:
+        return "C01:nested-parentheses-limit"
     if "too many levels of indentation" in what:
         return "C01:indentation-depth-limit"
     if "Exceeds the limit" in what and "integer string conversion" in what:
@@ -446,6 +448,7 @@ def mutate(r, src):
 
 
 PROBES = [
+    ("async", "{{ a" + ".b" * 80 + " }}"),       # known finding C01-nested-parentheses
     ("default", "{{ 'a'*10**8 }}"),       # known finding C01-folding-blowup
     ("default", "{{ [1]|slice(10**400)|list }}"),
     ("default", "{% macro m(a, a) %}{% endmacro %}"),
@@ -714,7 +717,7 @@ def oracle(ctx):
     ctx.evaluations += len(work)
     starts = ("{{", "{%", "{#", "<%", "<!--", "$%", "${", "$#", "#", "(*", "[[", "(?", "<")
     ctx.nontrivial.update(("o", c, s) for c, s in seen if any(x in s for x in starts))
-    ctx.samples.append({"config": "ext", "source": PROBES[8][1], "outcome": "TemplateSyntaxError (line 1)"})
+    ctx.samples.append({"config": "ext", "source": PROBES[9][1], "outcome": "TemplateSyntaxError (line 1)"})
     ctx.extra["oracle_wall_s"] = round(time.time() - t0, 1)
 
 
